@@ -38,7 +38,11 @@ Init == \E r \in DOMAIN Fam.recipes, d \in DOMAIN Docs : \E e \in Envs(r, d) :
           rid = r /\ did = d /\ IOInit(Build(Fam.recipes[r]), Docs[d].toks, e)
 
 Next == IONext /\ UNCHANGED <<rid, did>>
-Spec == Init /\ [][Next]_vars
+Spec == Init /\ [][Next]_vars /\ WF_vars(Next)
+
+\* every call returns (C14, at the level of the specification): under weak fairness of the loop every behaviour
+\* reaches a final status
+Termination == <>Done
 
 EmitCase == (Emit /\ Done) =>
    PrintT(<<"CASE", ToJson([rid |-> rid, did |-> did, env |-> env, writes |-> writes, status |-> status,
